@@ -37,4 +37,14 @@ impl DirEntry { #[verifier::external_body] pub fn path(&self) -> (r: PathBuf) { 
 // the sequence is in the (total) order of PathBuf: its order is a function of its contents
 pub uninterp spec fn paths_sorted(s: Seq<PathBuf>) -> bool;
 #[verifier::external_body] pub fn vec_sort_paths(v: &mut Vec<PathBuf>) ensures paths_sorted(final(v)@) { unimplemented!() }     // <[PathBuf]>::sort
+#[verifier::external_body] pub fn str_eq_lit(a: &String, b: &str) -> (r: bool) ensures r == (a@ == b@) { unimplemented!() }
+// C16: `Builtin` is the compiler's own package (unqualified global names, exempt from the import gate and the orphan rule)
+pub open spec fn reserved_package_name(n: Seq<char>) -> bool { n == "Builtin"@ }
+// ---- separate::read_source_files (the same two clauses for the check / build drivers) ----
+#[verifier::external_body] pub fn strs_eq(a: &str, b: &str) -> (r: bool) ensures r == (a@ == b@) { unimplemented!() }
+#[verifier::external_body] pub fn str_ne_string(a: &String, b: &str) -> (r: bool) ensures r == (a@ != b@) { unimplemented!() }
+#[verifier::external_body] pub fn sorted_dedup_paths(v: &Vec<PathBuf>) -> (r: Vec<PathBuf>) { unimplemented!() }       // to_vec(); sort(); dedup()
+#[verifier::external_body] pub fn import_set_add(s: &mut HashSet<String>, ast: &AstFile) { unimplemented!() }          // for import in ast.imports.iter() { s.insert(import.0.clone()); }
+#[verifier::external_body] pub fn new_import_set() -> (r: HashSet<String>) { unimplemented!() }
+#[verifier::external_body] pub fn path_display(p: &PathBuf) -> (r: String) { unimplemented!() }
 
